@@ -71,6 +71,10 @@ def _(c):
               label='queue-untouched-unless-delivery-or-firing')
     # C09: a dt / ode rule runs exactly once per elapsed delta step: the next pass is a rule step iff the delta (volume) clock fired
     main.step('rule_step == ite(step_type == 1, 1, 0)', label='rule-step-exactly-when-the-delta-clock-fires')
+    # C11: after every volume step the volume model is asked; the loop goes on only without a reported division and is left early only on one, flagged
+    DIV = 'ifun("vdivided", v, c_current_state, ghost("pvals"), current_time, current_volume, delta_t)'
+    main.step('implies(%s, %s == 0)' % (VOL, DIV), label='the-loop-goes-on-after-a-volume-step-only-if-no-division-was-reported')
+    main.at_break('cell_divided == 1 and %s == 1' % DIV, label='left-early-only-on-a-reported-division-and-flagged')
     main.step('forall(lambda m, s: implies(head(current_index) <= m and m < current_index and 0 <= s and s < num_species, '
               'c_results[m, s] == %s[s]))' % XR, label='rows-get-the-pre-event-state')
     main.step('forall(lambda m, s: implies((m < head(current_index) or m >= current_index), c_results[m, s] == head(c_results[m, s])))',
